@@ -71,7 +71,7 @@ def restoreStacks' : List (Nat × String) := [
   (0, "vm.refStack = vm.refStack[:refLen]"),
   (0, "return")]
 
-/-- model: `handleThrowLoop / restoreFrame / handleThrow` -/
+/-- model: `handleThrowLoop / restoreFrame / handleThrow; the deferred recover = an aborted handleThrow is followed by the uncatchable unwinding at the same boundary (unwindAtMarker on `fatal`)` -/
 def handleThrow : List (Nat × String) := [
   (0, "ex := vm.exceptionFromValue(arg)"),
   (0, "if ex != nil"),
@@ -622,7 +622,7 @@ def genObjReturn : List (Nat × String) := [
   (0, "vm.popCtx()"),
   (0, "return g.step(res, done, ex)")]
 
-/-- model: `asyncResume (curAsyncRunner itself: Idle vector only)` -/
+/-- model: `asyncResumeCA (Vm.curAsync set; the deferred clear) around asyncResume` -/
 def asyncOnFulfilled : List (Nat × String) := [
   (0, "ar.gen.vm.curAsyncRunner = ar"),
   (0, "defer func()"),
